@@ -560,6 +560,8 @@ func configure(g *gen) {
 	add(FnSpec{Recv: "Context", Func: "WriteString", Lean: "Ctx.WriteString", Extra: []string{"(ext : Int × Bool)"}, Mutates: true,
 		Exts: []Ext{{Callee: "$.WriteBytes", Stmts: []string{"$ ← Gen.Ctx.WriteBytes $ %1 ext"}, MayPanic: true}}})
 	add(FnSpec{Recv: "Context", Func: "SetStatusCode", Lean: "Ctx.SetStatusCode"})
+	add(FnSpec{Recv: "Context", Func: "SetHandlers", Lean: "Ctx.SetHandlers", Mutates: true,
+		Types: map[string]T{"rux.HandlersChain": {"opaque", "List Unit"}}})
 	// the URL-query readers: `c.Req.URL.Query()` parses the raw query on EVERY call (a parameter: `query req key` = the
 	// values of that parse under the key and whether the key is there); nothing is kept in the context
 	qExtra := []string{"(query : Option Nat → Bytes → List Bytes × Bool)"}
